@@ -41,6 +41,15 @@ def job(j):
             src = p + '.src'
             with open(src, 'wb') as f: f.write(bytes(((i * 11 + nblk) & 0xff) for i in range(64)) * (nblk * bs // 64))
             open(sp, 'w').write('write %s /Tfile\n' % src)
+        elif prep[0] == 'symlinks':
+            # symlinks of every target length lo..hi, each carrying an extended attribute (small inodes put it into an external block): the
+            # fast/slow symlink decision depends on i_size, i_blocks and the xattr block together
+            lo, hi, big = prep[1], prep[2], prep[3]
+            cmds = ['mkdir /SL']
+            for n in range(lo, hi + 1):
+                cmds.append('symlink /SL/l%03d %s' % (n, 't' * n))
+                cmds.append('ea_set /SL/l%03d user.k %s' % (n, 'v' * (200 if big else 12)))
+            open(sp, 'w').write('\n'.join(cmds) + '\n')
         elif prep[0] == 'pattern':
             pat, bs = prep[1], prep[2]
             src = p + '.src'; gar = p + '.gar'
@@ -57,6 +66,12 @@ def job(j):
         with open(p, 'rb') as f: data = f.read()
         rc0, out0 = run([E2FSCK, '-fn', p], timeout=30)
         if rc0 != 0:
+            # the image was prepared with debugfs from a clean corpus image; if the independent checker finds it consistent, an e2fsck that
+            # complains about it is itself the violation (a healthy filesystem must check clean), otherwise the preparation went wrong
+            try: vv = xcheck(data)
+            except Exception as e: vv = [('S', 'unreadable', repr(e))]
+            if not vv:
+                return (cid, 'bad', [('-fn', 'e2fsck -fn exits %s on a prepared filesystem that the independent checker finds consistent' % rc0, out0[-300:])], 1)
             return (cid, 'skip', 'prepared image not clean (%s): %s' % (rc0, out0[-200:]), 0)
     elif kind == 'd':
         data = fsweep.make_multi(base, j[3 + 2] if False else cid[1])
@@ -132,7 +147,7 @@ def main(tier, only=None):
     ck = Check('C05', tier, 'model_checking')
     E2FSCK = tool('e2fsck'); DEBUGFS = tool('debugfs'); fsweep.init_scratch()
     quick = tier == 'quick'
-    parts = only or ['a', 'b', 'c', 'd', 'e']
+    parts = only or ['a', 'b', 'c', 'd', 'e', 'f']
     jobs = []
     if 'a' in parts:
         for b in fsweep.SWEEP_BASES + ['needsrec']:
@@ -148,6 +163,10 @@ def main(tier, only=None):
         for base, bs in (('ext2', 1024), ('ext3', 1024)) if not quick else (('ext2', 1024),):
             for nblk in (range(0, 301) if not quick else list(range(0, 30)) + list(range(30, 301, 6)) + [267, 268, 269, 270]):
                 jobs.append(('c', 'c/%s/blocks%d' % (base, nblk), base, ('file', nblk, bs), [('-fy', '-E', 'bmap2extent'), ('-fyD',)]))
+    if 'f' in parts:
+        for base in (['ext2', 'ext4csum', 'eashare'] if quick else ['ext2', 'ext2dx', 'ext3', 'ext4', 'ext4csum', 'inline', 'eashare', 'bs4k', 'quota']):
+            for big in (False, True):
+                jobs.append(('f', 'f/%s/symlinks1-120%s' % (base, '+bigea' if big else ''), base, ('symlinks', 1, 120, big), MODES))
     if 'e' in parts:
         import itertools
         for base, bs_, n in ((('ext4csum', 1024, 4),) if quick else (('ext4csum', 1024, 6), ('ext4', 1024, 6), ('bigalloc', 1024, 6), ('bs4k', 4096, 5))):
@@ -183,7 +202,7 @@ def main(tier, only=None):
         ck.part('d_summary_only_damage', mutants=ndj)
     ck.add(evaluations=runs, distinct_nontrivial=len(jobs) + ndj, states=len(jobs) + ndj, transitions=runs, traces_validated_against_impl=runs,
            rule='(a) every corpus image x 5 repair modes; (b) test directory holding the first n of a fixed name sequence (hard links), every n in 0..400, 2-3 sequences (short, 252-byte, mixed lengths), '
-                'on linear/indexed/csum/inline/bigalloc bases x modes; (c) a file of every block count 0..300 x {bmap2extent, -D}; (e) a file whose first n blocks are every pattern over {hole, written, unwritten(preallocated)} (quick n=4, thorough n=6; free space pre-filled with stale bytes) x modes; (d) every single-field mutant of bitmap bits, counts, flags and checksum fields '
+                'on linear/indexed/csum/inline/bigalloc bases x modes; (c) a file of every block count 0..300 x {bmap2extent, -D}; (e) a file whose first n blocks are every pattern over {hole, written, unwritten(preallocated)} (quick n=4, thorough n=6; free space pre-filled with stale bytes) x modes; (f) a directory of symlinks of every target length 1..120, each with a small or a 200-byte extended attribute, on bases with 128- and 256-byte inodes x modes; (d) every single-field mutant of bitmap bits, counts, flags and checksum fields '
                 'x e2fsck -fy.  Oracle: exit in {0,1} and xck.tree (path,type,bytes,size,mode,owner,nlink,target,xattrs) identical before/after; (d) also second run clean',
            samples=[j[1] for j in jobs[:2]] + [j[1] for j in jobs[-2:]])
     ck.assumptions += ['xck.tree is the observer of "files" (independent reader); casefold/encrypted directories not in scope']
